@@ -39,16 +39,22 @@ def worker_env(numba_threads=None, boundscheck=False, extra=None):
     for k in ('OMP_NUM_THREADS', 'OPENBLAS_NUM_THREADS', 'MKL_NUM_THREADS'):
         env[k] = '1'
     # numba's default OpenMP layer spin-waits: with several shards x up to 16 threads on 16 cores every parallel region costs
-    # hundreds of ms. The workqueue layer (numba's own, always available) parks idle threads; prange semantics are the same.
-    env.setdefault('NUMBA_THREADING_LAYER', 'workqueue')
+    # hundreds of ms. OMP_WAIT_POLICY=passive parks idle OpenMP threads; non-bounds-checking workers additionally use numba's
+    # own workqueue layer. prange semantics are the same.
     env.setdefault('OMP_WAIT_POLICY', 'passive')
     if boundscheck:
         env['NUMBA_BOUNDSCHECK'] = '1'
     else:
         env.pop('NUMBA_BOUNDSCHECK', None)
+        env.setdefault('NUMBA_THREADING_LAYER', 'workqueue')
     env.pop('NUMBA_DISABLE_JIT', None)
     if extra:
         env.update({k: str(v) for k, v in extra.items()})
+    if boundscheck:
+        # IMPORTANT: with the workqueue layer an exception raised inside a prange body (which is how a bounds error
+        # surfaces) is silently dropped and the kernel returns a truncated result; only the default (OpenMP) layer
+        # propagates it as SystemError. Bounds-checking workers therefore never use workqueue, whatever the module asks for.
+        env.pop('NUMBA_THREADING_LAYER', None)
     return env
 
 
